@@ -628,11 +628,13 @@ func (m *Dense) Permutation(n int, p []int) {
 	if len(p) != n {
 		panic(badSliceLength)
 	}
-	m.reuseAsZeroed(n, n)
-	for i, v := range p {
+	for _, v := range p {
 		if v < 0 || v >= n {
 			panic(ErrRowAccess)
 		}
+	}
+	m.reuseAsZeroed(n, n)
+	for i, v := range p {
 		m.mat.Data[i*m.mat.Stride+v] = 1
 	}
 }
